@@ -791,6 +791,9 @@ pub fn evaluate(env: &Rc<RefCell<Env>>, expr: &LocExpr) -> NRes<Obj> {
         Expr::And(lhs, rhs) => {
             let lr = evaluate(env, lhs)?;
             if lr.truthy() {
+                // don't keep the left value alive while the right side runs, so that e.g.
+                // `xs and (xs append= 1)` can still mutate xs in place
+                std::mem::drop(lr);
                 evaluate(env, rhs)
             } else {
                 Ok(lr)
@@ -1135,13 +1138,16 @@ pub fn evaluate(env: &Rc<RefCell<Env>>, expr: &LocExpr) -> NRes<Obj> {
             }
         }
         Expr::If(cond, if_body, else_body) => {
+            // only keep the truthiness: holding the condition's value across the branch would
+            // force e.g. `if (xs) xs[0] = 1` to copy xs
             let cr = add_trace(
                 evaluate(env, cond),
                 || "if-cond".to_string(),
                 expr.start,
                 expr.end,
-            )?;
-            if cr.truthy() {
+            )?
+            .truthy();
+            if cr {
                 add_trace(
                     evaluate(env, if_body),
                     || "if-branch".to_string(),
